@@ -413,6 +413,16 @@ func vfFinish(t *testing.T, env *vfEnv, spec *vfSpec, part *vfPart, start time.T
 			fmt.Printf("INCONCLUSIVE: property=%s clause=%s never exercised in this run\n", spec.Prop, f)
 		}
 	}
+	if len(part.Inconclusive) > 0 {
+		inc := part.Inconclusive
+		if len(inc) > 5 {
+			inc = inc[:5]
+		}
+		cov["inconclusive_cases_sample"] = inc
+		for _, l := range inc {
+			fmt.Printf("NOTE: inconclusive case: %s\n", vfTrunc(l, 1200))
+		}
+	}
 	ev.Violations = realViol
 	ev.WallS = time.Since(start).Seconds()
 	harnessFail := len(part.Harness) > 0
